@@ -29,7 +29,16 @@ def make_scene(seed, kind):
     proj = rng.choice(["SIN", "TAN", "ZEA"])
     crval = (rng.choice([10.0, 359.9, 180.0, 77.3]), rng.choice([-55.0, -5.0, 30.0, 72.0]))
     beam = BEAM_PX * CDELT
-    h = synth.make_header(shape, proj=proj, crval=crval, cdelt_arcsec=CDELT, beam_arcsec=(beam, beam, 0.0))
+    crpix = None
+    if kind == "far":
+        proj = rng.choice(["SIN", "TAN"])        # (ZEA is equal-area: the beam AREA would not change)
+        # the image lies 10-25 degrees from the projection's reference point (a cut-out of a wide mosaic): the sky
+        # beam at the sources differs from the header beam by the local scale of the projection
+        off = rng.uniform(10.0, 25.0) * 3600.0 / CDELT
+        t = rng.uniform(0, 2 * math.pi)
+        crpix = (shape[1] / 2.0 + off * math.cos(t), shape[0] / 2.0 + off * math.sin(t))
+        crval = (crval[0], rng.choice([-30.0, -5.0, 30.0]))
+    h = synth.make_header(shape, proj=proj, crval=crval, cdelt_arcsec=CDELT, beam_arcsec=(beam, beam, 0.0), crpix=crpix)
     s0 = BEAM_PX * synth.FWHM2SIG
     comps = []
     H, W = shape
@@ -37,7 +46,7 @@ def make_scene(seed, kind):
     def src(x, y, amp, fa=1.0, fb=1.0, th=0.0):
         comps.append((amp, x, y, s0 * fa, s0 * fb, th))
 
-    if kind == "sparse":
+    if kind in ("sparse", "far"):
         for _ in range(rng.randint(3, 8)):
             src(rng.uniform(12, W - 12), rng.uniform(12, H - 12), rng.uniform(8, 60) * rng.choice([1, 1, -1]),
                 rng.uniform(1, 2), rng.uniform(1, 1.5), rng.uniform(0, math.pi))
